@@ -88,7 +88,7 @@ impl DescriptorManager {
     }
 
     pub fn get_binary_descriptor(&self, op: String) -> Arc<BinaryDescriptor> {
-        let key = DescriptorKey::UNARY(op);
+        let key = DescriptorKey::BINARY(op);
         let v = self.get(key);
         if v.is_none() {
             return Arc::new(default_binary_descriptor);
